@@ -775,3 +775,46 @@ Proof.
   - intro H. pose proof (rank_trust qnum q_laws c key trust_of Kk cands l1 x l2 y l3 K E H) as A.
     cbn [ltb qnum] in A. apply negb_false_iff in A. apply Qle_bool_iff in A. exact A.
 Qed.
+
+(* ---- strictness in exact arithmetic: at equal SCORED distance the more trusted wins ---- *)
+Lemma dscore_pos_exact : forall d, (0 < dscore qnum d)%Q.
+Proof.
+  intro d. unfold dscore. cbn [div one add ofN scale qnum].
+  assert (A : (0 <= inject_Z (Z.of_N d) / SEL_SCALE)%Q).
+  { unfold Qdiv. apply Qmult_le_0_compat; [change 0%Q with (inject_Z 0); rewrite <- Zle_Qle; lia|].
+    apply Qinv_le_0_compat. discriminate. }
+  apply Qlt_shift_div_l; lra.
+Qed.
+
+Lemma score_strict_exact : forall w d t1 t2, (0 <= w)%Q -> (w < 1)%Q -> (t1 < t2)%Q ->
+  (mul qnum (dscore qnum d) (tfactor qnum w t1) < mul qnum (dscore qnum d) (tfactor qnum w t2))%Q.
+Proof.
+  intros w d t1 t2 W0 W1 T. pose proof (dscore_pos_exact d) as P.
+  unfold tfactor. cbn [mul add sub one qnum]. apply Qmult_lt_l; [exact P|].
+  apply Qplus_lt_r. apply Qmult_lt_l; [lra|exact T].
+Qed.
+
+(* at equal SCORED distance (same top 16 bytes) and weight < 1, the strictly more trusted peer
+   is ranked ahead *)
+Lemma rank_trust_scored_exact : forall (c : scfg) key trust_of cands l1 x l2 y l3,
+  key_ok key -> Forall (fun x => key_ok (n_id x)) cands ->
+  rank qnum c key trust_of cands = l1 ++ x :: l2 ++ y :: l3 ->
+  e_dist x / 2 ^ 128 = e_dist y / 2 ^ 128 -> (unit qnum (c_weight c) < 1)%Q ->
+  (e_trust y <= e_trust x)%Q.
+Proof.
+  intros c key trust_of cands l1 x l2 y l3 Kk K E D W.
+  pose proof (rank_sorted qnum q_laws c key trust_of Kk cands K) as Srt. rewrite E in Srt. apply ss_split3 in Srt.
+  assert (Ix : In x (rank qnum c key trust_of cands)) by (rewrite E; apply in_or_app; right; left; reflexivity).
+  assert (Iy : In y (rank qnum c key trust_of cands)).
+  { rewrite E. apply in_or_app. right. right. apply in_or_app. right. left. reflexivity. }
+  apply rank_in in Ix. destruct Ix as [nx [_ [-> _]]]. apply rank_in in Iy. destruct Iy as [ny [_ [-> _]]].
+  cbn [entry e_trust e_dist] in *.
+  destruct (Qlt_le_dec (unit qnum (trust_of (n_id nx))) (unit qnum (trust_of (n_id ny)))) as [Lt|Ge]; [exfalso|exact Ge].
+  unfold before_eq, lex, sle in Srt. cbn [entry e_score] in Srt. apply andb_true_iff in Srt. destruct Srt as [S1 _].
+  cbn [leb qnum] in S1. apply Qle_bool_iff in S1. unfold score in S1.
+  assert (D' : d16 key (n_id nx) = d16 key (n_id ny)) by (unfold d16; exact D).
+  rewrite D' in S1.
+  destruct (unit_range qnum q_laws (c_weight c)) as [W0 _]. cbn [leb zero qnum] in W0. apply Qle_bool_iff in W0.
+  pose proof (score_strict_exact (unit qnum (c_weight c)) (d16 key (n_id ny)) _ _ W0 W Lt) as St.
+  lra.
+Qed.
